@@ -7,7 +7,8 @@
 From Coq Require Import ZArith List Bool.
 Import ListNotations.
 From V Require Import tzfile.TzModel tzfile.TzSpec tzfile.TzData tzfile.TzFixedThm tzfile.TzFinalThm
-  tzfile.TzC06Thm tzfile.TzGenericModel tzfile.TzGenericThm tzfile.TzSameThm.
+  tzfile.TzC06Thm tzfile.TzGenericModel tzfile.TzGenericThm tzfile.TzSameThm
+  tzfile.TzZoneThm tzfile.TzGenericInstThm.
 Open Scope Z_scope.
 
 (* fromutc yields the wall reading u + off(u) with fold = "an earlier instant has the same wall
@@ -54,6 +55,19 @@ Theorem C04_generic_roundtrip : forall (UO DST : Z -> bool -> Z) (z : zone) (so 
             w = local z u /\ f = fold_spec z u /\ UO w f = off z u /\ w - UO w f = u.
 Proof. exact generic_roundtrip_lemma. Qed.
 Print Assumptions C04_generic_roundtrip.
+
+(* ... and those five obligations are met by every piecewise-constant zone with constant standard
+   offset so and alternating standard / daylight periods (positive savings, any number of eras with
+   different rules and savings) whose utcoffset()/dst() are the PEP-495 wall lookups A_utcoffset
+   (what tzfile computes, and what an iCalendar zone's _find_comp computes on its onset list):
+   the generic _tzinfo.fromutc is correct on all of them *)
+Theorem C04_generic_on_piecewise_zone : forall (so p : Z) (tr : list (Z * Z)),
+  wf_zone (mkZone p tr) = true -> alt_from so p tr = true -> so <= p -> forall u,
+  let (w, f) := g_fromutc (A_utcoffset p tr) (fun x f => A_utcoffset p tr x f - so) u in
+  w = local (mkZone p tr) u /\ f = fold_spec (mkZone p tr) u /\
+  A_utcoffset p tr w f = off (mkZone p tr) u /\ w - A_utcoffset p tr w f = u.
+Proof. exact generic_on_piecewise_lemma. Qed.
+Print Assumptions C04_generic_on_piecewise_zone.
 
 Theorem C04_fixed_roundtrip : forall o u,
   let (w, f) := fixed_fromutc o u in
